@@ -63,7 +63,17 @@ pub enum Case {
     },
     /// the server decides to end the connection (trigger); the peer is silent / half-closes late /
     /// never reads / its transport never completes shutdown
-    Shutdown { trigger: Trigger, disc_ms: u32, accept_delay: u16, peer: PeerEnd, never_reads: bool, shutdown_blocks: bool },
+    Shutdown {
+        trigger: Trigger,
+        disc_ms: u32,
+        accept_delay: u16,
+        peer: PeerEnd,
+        never_reads: bool,
+        shutdown_blocks: bool,
+        /// the early response (UnreadBody trigger) has no body: `()` instead of 3 bytes
+        #[serde(default)]
+        bodiless: bool,
+    },
     /// graceful-shutdown signal at `signal_ms`
     Drain {
         signal_ms: u16,
@@ -139,14 +149,16 @@ fn case_strategy(kind: u8) -> BoxedStrategy<Case> {
             prop_oneof![2 => Just(PeerEnd::Silent), 2 => (0u16..3000).prop_map(PeerEnd::EofAfter)],
             any::<bool>(),
             any::<bool>(),
+            any::<bool>(),
         )
-            .prop_map(|(trigger, disc_ms, accept_delay, peer, never_reads, shutdown_blocks)| Case::Shutdown {
+            .prop_map(|(trigger, disc_ms, accept_delay, peer, never_reads, shutdown_blocks, bodiless)| Case::Shutdown {
                 trigger,
                 disc_ms,
                 accept_delay,
                 peer,
                 never_reads,
                 shutdown_blocks,
+                bodiless,
             })
             .boxed(),
         _ => (
@@ -497,7 +509,7 @@ pub fn run_case(_cfg: &RunCfg, case: &Case) -> Verdict {
             }
         }
 
-        Case::Shutdown { trigger, disc_ms, accept_delay, peer, never_reads, shutdown_blocks } => {
+        Case::Shutdown { trigger, disc_ms, accept_delay, peer, never_reads, shutdown_blocks, bodiless } => {
             let d = *disc_ms as i64;
             let (input, progs, cfg, t_decide): (Vec<u8>, Vec<HandlerProg>, SrvCfg, i64) = match trigger {
                 Trigger::KaExpiry => {
@@ -515,6 +527,9 @@ pub fn run_case(_cfg: &RunCfg, case: &Case) -> Verdict {
                 Trigger::UnreadBody => {
                     let cfg = SrvCfg { disc_timeout_ms: *disc_ms, accept_delay_ms: *accept_delay, ..Default::default() };
                     let mut p = prog(20, ok_resp(3));
+                    if *bodiless {
+                        p.resp.body = BodyProg { kind: BodyKind::Unit, chunks: vec![], fail_at_end: false, seed: 0, style: 1 };
+                    }
                     p.read = ReadProg::Hold;
                     // the body never arrives completely
                     (b"POST /a HTTP/1.1\r\nContent-Length: 1000\r\n\r\nabc".to_vec(), vec![p], cfg, 20)
@@ -557,7 +572,8 @@ pub fn run_case(_cfg: &RunCfg, case: &Case) -> Verdict {
                 .class_if(matches!(trigger, Trigger::KaExpiry), "trigger-keep-alive-expiry")
                 .class_if(matches!(trigger, Trigger::Head408), "trigger-408")
                 .class_if(matches!(trigger, Trigger::CloseResponse), "trigger-close-response")
-                .class_if(matches!(trigger, Trigger::UnreadBody), "trigger-unread-body-linger");
+                .class_if(matches!(trigger, Trigger::UnreadBody), "trigger-unread-body-linger")
+                .class_if(matches!(trigger, Trigger::UnreadBody) && *bodiless, "early-response-without-body");
             let v = match common(v, &out) {
                 Ok(v) => v,
                 Err(v) => return v,
@@ -748,7 +764,7 @@ pub fn run_case(_cfg: &RunCfg, case: &Case) -> Verdict {
 
 pub fn run(cfg: &RunCfg) -> Report {
     let mut rep = Report::new("C06");
-    rep.rule = "cases = (head) client_request_timeout 0/300/3000/1..2000 ms x clock staleness 0..499 ms x first head in 1-4 pieces completing at the exact deadline -3000..+1500 ms (dense at +-3 ms) or never; (keep-alive) Disabled/Os/Timeout 1..5000 ms x handler delay x second and third request arriving at the exact idle deadline -3000..+1500 ms or never, the first request optionally a chunked upload (read or dropped by the handler) whose terminating chunk arrives 0-900 ms after its head; (shutdown) decision by keep-alive expiry / 408 / Connection: close response / response with unread body (linger) x client_disconnect_timeout 0/500/2000/1..3000 ms x peer silent or half-closing late x peer that never reads x transport whose shutdown never completes; (drain) graceful-shutdown signal at 0..900 ms against 1-4 requests with handler delays, streaming bodies and arrival gaps; \
+    rep.rule = "cases = (head) client_request_timeout 0/300/3000/1..2000 ms x clock staleness 0..499 ms x first head in 1-4 pieces completing at the exact deadline -3000..+1500 ms (dense at +-3 ms) or never; (keep-alive) Disabled/Os/Timeout 1..5000 ms x handler delay x second and third request arriving at the exact idle deadline -3000..+1500 ms or never, the first request optionally a chunked upload (read or dropped by the handler) whose terminating chunk arrives 0-900 ms after its head; (shutdown) decision by keep-alive expiry / 408 / Connection: close response / response (3-byte or empty body) with unread request body (linger) x client_disconnect_timeout 0/500/2000/1..3000 ms x peer silent or half-closing late x peer that never reads x transport whose shutdown never completes; (drain) graceful-shutdown signal at 0..900 ms against 1-4 requests with handler delays, streaming bodies and arrival gaps; \
                 non-trivial = an event within 50 ms of a deadline or a head that never completes, an obstructed shutdown with a timeout configured, or a signal fired while a handler runs with a request queued; distinct by hash of the case"
         .into();
     rep.assumptions = vec![
